@@ -34,6 +34,8 @@ def lookup_intrinsic(pyf):
     import pathlib
     if getattr(pyf, "__name__", "") == "cwd" and getattr(pyf, "__self__", None) in (pathlib.Path, pathlib.PosixPath):
         return path_cwd_intrinsic
+    if getattr(pyf, "__name__", "") == "invertlaplace" and "mpmath" in (getattr(pyf, "__module__", "") or ""):
+        return _invertlaplace
     # methods of ghost model classes (library models that need the symbolic state, e.g. the path model of the CLI
     # contract): the underlying function carries its handler
     fn = getattr(pyf, "__func__", None)
@@ -929,6 +931,17 @@ def _tile(ex, st, args, kwargs, node):
     if ex.ctx.spec_mode == 0:
         st.assume(ex.cmp(">", m, 0))
     return st.new_cell(Seq("nd", n, fn=lambda j: sq.get(ex.arith("%", j, m)), et=sq.et))
+
+
+def _invertlaplace(ex, st, args, kwargs, node):
+    """mpmath.invertlaplace(F, t, method=...): the numerically inverted transform at time t - an uninterpreted function
+    of t, one symbol per call site (the transformed function F is a closure over the run's parameters) (A3)"""
+    if len(args) < 2:
+        raise Unsupported("invertlaplace without a time argument")
+    t = py_number(args[1])
+    site = f"{getattr(ex, 'func_stack', [('?',)])[-1][0] if getattr(ex, 'func_stack', None) else '?'}:{getattr(node, 'lineno', 0)}"
+    f = ex.ctx.uf("invertlaplace@" + site, z3.RealSort(), z3.RealSort())
+    return f(to_real(_as_float(t)))
 
 
 @intrinsic(np.interp)
